@@ -403,6 +403,33 @@ def run_item(ctx, item):
             if len(ms_) >= 2:
                 # a fermata on the right barline of an inner measure (known finding: written twice)
                 p_.add(S.Fermata("right"), rng.choice(ms_[:-1]).end.t)
+        if rng.random() < 0.3:
+            # repeats and endings on barlines (as the importer builds them: spans from barline to barline)
+            ms_ = sorted(timemaps.objects_of(p_, S.Measure), key=lambda m_: m_.start.t)
+            if len(ms_) >= 3:
+                i_ = rng.randrange(0, len(ms_) - 1)
+                j_ = rng.randrange(i_, len(ms_) - 1)
+                p_.add(S.Repeat(), ms_[i_].start.t, ms_[j_].end.t)
+                ctx.extra["generated_repeats"] += 1
+                if j_ > i_ and rng.random() < 0.6:
+                    p_.add(S.Ending(1), ms_[j_].start.t, ms_[j_].end.t)
+                    p_.add(S.Ending(2), ms_[j_ + 1].start.t, ms_[j_ + 1].end.t)
+                    ctx.extra["generated_endings"] += 2
+                if j_ + 2 < len(ms_) and rng.random() < 0.4:       # a second repeat later on
+                    k_ = rng.randrange(j_ + 2, len(ms_))
+                    p_.add(S.Repeat(), ms_[j_ + 2].start.t, ms_[k_].end.t)
+                    ctx.extra["generated_repeats"] += 1
+        if pitched and rng.random() < 0.2:
+            # a text dynamics direction that lasts (written as words followed by dashes)
+            on_ = sorted({int(n.start.t) for n in pitched})
+            if len(on_) >= 3:
+                a_ = rng.randrange(0, len(on_) - 1)
+                b_ = rng.randrange(a_ + 1, min(len(on_), a_ + 5))
+                from partitura.directions import parse_direction
+                d_ = parse_direction(rng.choice(["cresc.", "dim.", "crescendo", "decresc."]))[0]
+                if isinstance(d_, S.DynamicLoudnessDirection):
+                    p_.add(d_, on_[a_], on_[b_])
+                    ctx.extra["generated_dashes"] += 1
         if pitched and rng.random() < 0.25:
             inner = sorted({int(n.start.t) for n in pitched})[1:]
             if inner:
